@@ -782,6 +782,12 @@ class Repository:
                 contents = self._get_cached(path)
             except FileNotFoundError:
                 pass
+            else:
+                # Cache entries get the same verification as downloads do (the cache
+                # may have been left in any state by an interrupted write)
+                if self.props.hash_digest(contents) != expected_digest:
+                    logger.info('Cached %s is corrupted, ignoring it', path)
+                    contents = None
 
         if contents is None:
             contents = self._download_threadsafe(path, loop=loop)
